@@ -4,7 +4,9 @@ Obs == ndJsonDeserialize(IOEnv.TRACE_FILE)
 VARIABLE l
 Init == l \in 1..Len(Obs)
 Next == UNCHANGED l
-Inv == IF Obs[l].kind = "rate" THEN RateRowOK(Obs[l]) ELSE TriggerRowOK(Obs[l])
+Inv == CASE Obs[l].kind = "rate" -> RateRowOK(Obs[l])
+         [] Obs[l].kind = "ramp" -> RampRowOK(Obs[l])
+         [] OTHER -> TriggerRowOK(Obs[l])
 \* sanity of the specification itself on a few spellings
 ASSUME Meaning(<<"5">>) = [rate |-> 5, ms |-> 1000, ns |-> 0]
 ASSUME Meaning(<<"1", "0", "/", "s">>) = [rate |-> 10, ms |-> 1000, ns |-> 0]
